@@ -70,6 +70,9 @@ class ParentRng:
         self.draws.append(v)
         return v
 
+    def spawn(self, n):
+        return [SeededRng(('spawned', None, i)) for i in range(int(n))]
+
 
 class _NpRandom:
     def __init__(self, log):
